@@ -151,6 +151,9 @@ class State:
         self.ineq = []
         self.bottom = False
         self.neq = []          # list of Lin (!= 0), reduced by the rows
+        # conditional facts (key symbol, token, eqs, ineqs): once the key is known to
+        # hold the token, the equalities / inequalities (over value atoms) hold
+        self.cond = []
         # sym -> ("in"|"notin", frozenset(tokens)); absent = top
         self.enums = {}
         # name -> frozenset: may-sets (join = union)
@@ -162,6 +165,7 @@ class State:
         s.ineq = list(self.ineq)
         s.bottom = self.bottom
         s.neq = list(self.neq)
+        s.cond = list(self.cond)
         s.enums = dict(self.enums)
         s.may = dict(self.may)
         return s
@@ -581,6 +585,9 @@ def join(a, b):
                     c = y.lower_bound(e)
                     if c is not None and c >= 0:
                         out.add_ineq(e)
+    # ---- conditional facts: those present on both sides
+    kb = {repr(c) for c in b.cond}
+    out.cond = [c for c in a.cond if repr(c) in kb]
     # ---- disequalities
     for x, y in ((a, b), (b, a)):
         for d in x.neq:
@@ -612,6 +619,8 @@ def same(a, b):
         if a.rows[p].key() != b.rows[p].key():
             return False
     if a.enums != b.enums or a.may != b.may:
+        return False
+    if sorted(map(repr, a.cond)) != sorted(map(repr, b.cond)):
         return False
     if sorted(d.key() for d in a.neq) != sorted(d.key() for d in b.neq):
         # the same disequality may be stored with either sign
